@@ -143,11 +143,27 @@ func layout(rt *rapid.T, dir string) (string, string) {
 	return dir, "plain"
 }
 
+// otherFS returns a directory on another file system than dir (for TMPDIR), or "" if there is none. Where the
+// program's temporary directory lies is part of the environment the statement quantifies over: the unchanged
+// store writes its temporary file next to data.json, so it does not matter there.
+func otherFS(dir string) string {
+	var a, b syscall.Stat_t
+	if syscall.Stat(dir, &a) != nil || syscall.Stat("/dev/shm", &b) != nil || a.Dev == b.Dev {
+		return ""
+	}
+	// (the driver removes what a killed shard leaves behind: everything with its tag)
+	d, err := os.MkdirTemp("/dev/shm", "verif-tmp-"+os.Getenv("VERIF_SHM_TAG")+"-")
+	if err != nil {
+		return ""
+	}
+	return d
+}
+
 var sizeGen = rapid.SampledFrom([]string{"tiny", "small", "small", "medium", "medium", "medium", "large", "large", "huge"})
 
 // TestC09Readers: readers racing a sequence of saves only ever see complete snapshots.
 func TestC09Readers(t *testing.T) {
-	col := ev.Get("C09", "readers", "a saver goroutine (in 30% of the cases two concurrent savers) saves a generated sequence of 3-12 snapshots (size classes from 1 job to ~1500 jobs / several MB) with the real JsonDataStore (store file reached directly, through a data.json that is a symbolic link to a file elsewhere, or through a symlinked store directory) while 2-6 reader goroutines alternate raw os.ReadFile+encoding/json and JsonDataStore.Load; every observation must be 'absent' (only before the first save returned) or decode completely to exactly one snapshot passed to Save (index + content hash), with index >= last save that had returned before the observation began and <= last save started; after the sequence Load returns exactly the last snapshot; non-trivial = an observation that overlapped a save in progress; distinct by (seed,size,observation count)")
+	col := ev.Get("C09", "readers", "a saver goroutine (in 30% of the cases two concurrent savers) saves a generated sequence of 3-12 snapshots (size classes from 1 job to ~1500 jobs / several MB) with the real JsonDataStore (store file reached directly, through a data.json that is a symbolic link to a file elsewhere, or through a symlinked store directory; in a third of the cases TMPDIR points to another file system) while 2-6 reader goroutines alternate raw os.ReadFile+encoding/json and JsonDataStore.Load; every observation must be 'absent' (only before the first save returned) or decode completely to exactly one snapshot passed to Save (index + content hash), with index >= last save that had returned before the observation began and <= last save started; after the sequence Load returns exactly the last snapshot; non-trivial = an observation that overlapped a save in progress; distinct by (seed,size,observation count)")
 	rapid.Check(t, func(rt *rapid.T) {
 		seed := rapid.Int64Range(1, 1<<40).Draw(rt, "seed")
 		size := sizeGen.Draw(rt, "size")
@@ -157,6 +173,21 @@ func TestC09Readers(t *testing.T) {
 		top := workDir(rt)
 		defer os.RemoveAll(top)
 		dir, lay := layout(rt, top)
+		if rapid.IntRange(0, 2).Draw(rt, "tmpdirOnOtherFileSystem") == 0 {
+			if other := otherFS(top); other != "" {
+				defer os.RemoveAll(other)
+				old, had := os.LookupEnv("TMPDIR")
+				os.Setenv("TMPDIR", other)
+				defer func() {
+					if had {
+						os.Setenv("TMPDIR", old)
+					} else {
+						os.Unsetenv("TMPDIR")
+					}
+				}()
+				lay += "+tmpdir-on-other-fs"
+			}
+		}
 		st, err := store.NewJSONDataStore(dir)
 		if err != nil {
 			rt.Fatalf("NewJSONDataStore: %v", err)
@@ -304,7 +335,7 @@ func calibrate() {
 
 // TestC09Kill: a saving process killed at an arbitrary instant leaves a complete snapshot behind.
 func TestC09Kill(t *testing.T) {
-	col := ev.Get("C09", "kill", "a child process (vhelper saver) saves a generated sequence with the real JsonDataStore (store file reached directly, through a symlinked data.json or a symlinked directory) and reports begin i / end i on a pipe; the parent sends SIGKILL at a generated instant (after 'begin k' plus a delay drawn from the measured save duration of that size class); afterwards a raw read and Load in the parent must yield 'absent' only if no save had ended, else a complete snapshot with index in [last end reported, last begin reported] and matching content hash; in 7 of 10 cases a second run then saves 1-3 snapshots of another size class into the same directory (with whatever the killed run left there) and the store must hold exactly its last snapshot; non-trivial = the kill fell between a begin and its end; distinct by (seed,size,kill point)")
+	col := ev.Get("C09", "kill", "a child process (vhelper saver) saves a generated sequence with the real JsonDataStore (store file reached directly, through a symlinked data.json or a symlinked directory; in a third of the cases its TMPDIR is on another file system) and reports begin i / end i on a pipe; the parent sends SIGKILL at a generated instant (after 'begin k' plus a delay drawn from the measured save duration of that size class); afterwards a raw read and Load in the parent must yield 'absent' only if no save had ended, else a complete snapshot with index in [last end reported, last begin reported] and matching content hash; in 7 of 10 cases a second run then saves 1-3 snapshots of another size class into the same directory (with whatever the killed run left there) and the store must hold exactly its last snapshot; non-trivial = the kill fell between a begin and its end; distinct by (seed,size,kill point)")
 	helper := helperPath(t)
 	calibrate()
 	rapid.Check(t, func(rt *rapid.T) {
@@ -317,6 +348,13 @@ func TestC09Kill(t *testing.T) {
 		defer os.RemoveAll(top)
 		dir, lay := layout(rt, top)
 		cmd := exec.Command(helper, "saver", dir, strconv.FormatInt(seed, 10), strconv.Itoa(count), size)
+		if rapid.IntRange(0, 2).Draw(rt, "tmpdirOnOtherFileSystem") == 0 {
+			if other := otherFS(top); other != "" {
+				defer os.RemoveAll(other)
+				cmd.Env = append(os.Environ(), "TMPDIR="+other)
+				lay += "+tmpdir-on-other-fs"
+			}
+		}
 		out, err := cmd.StdoutPipe()
 		if err != nil {
 			rt.Fatalf("pipe: %v", err)
